@@ -59,8 +59,13 @@ fn child(case: &str) {
             let t0 = thread_cpu_ns();
             let w0 = Instant::now();
             let cfg = ParserConfig::new(level, None, HashMap::new(), LuaFeaturesSet::default(), doc);
+            emmylua_parser::verif::start_recording();
             let tree = LuaParser::parse(&text, cfg);
             let cpu = thread_cpu_ns() - t0;
+            let rec = emmylua_parser::verif::take_recording().unwrap_or_default();
+            let (nev, ntok, nloop) = (rec.events.len(), rec.tokens.len(), rec.chunk_loop.len());
+            let progress = rec.chunk_loop.windows(2).all(|w| w[0] < w[1]);
+            drop(rec);
             let wall = w0.elapsed().as_nanos() as u64;
             let errors = tree.get_errors().len();
             let first = tree.get_errors().first().map(|e| e.message.clone());
@@ -87,7 +92,8 @@ fn child(case: &str) {
                 drop(tree);
             }
             json!({"errors": errors, "first": first, "cpu_ns": cpu, "wall_ns": wall, "len": text.len(),
-                   "tree_depth": maxd, "lossless": lossless})
+                   "tree_depth": maxd, "lossless": lossless,
+                   "nev": nev, "ntok": ntok, "loop_iterations": nloop, "progress": progress})
         })
         .expect("spawn");
     match h.join() {
